@@ -30,9 +30,9 @@ for pid in ['C%02d' % i for i in range(1, 21)]:
 m = {
     'version': 1,
     'setup_cmd': './setup.sh',
-    'hooks': {'guard': 'MANIFOLD_VERIF', 'enable': 'no hooks in /repo are needed: contracts live in /verif/contracts and are woven into C lowered from /repo at check time (native replay drivers are compiled with -DMANIFOLD_VERIF)',
+    'hooks': {'guard': 'MANIFOLD_VERIF', 'enable': 'contracts live in /verif/contracts and are woven into C lowered from /repo at check time (no hook needed for the proofs); the native replay/sweep drivers (tools/nativebuild.py) compile /repo/src with -DMANIFOLD_VERIF, which enables the one hook: a cancellation-check counter and k-th-check Cancel() injection in src/execution_impl.h',
               'baseline_off_cmd': 'cmake --build /repo/_build -j16 && ctest --test-dir /repo/_build -j8 --timeout 900',
-              'source_commits': [], 'add_only': True},
+              'source_commits': ['5baff390b8755246bd352a8ccca282e717f6b44c'], 'add_only': True},
     'engines': [{'name': 'cbmc-contracts', 'path': 'check', 'serves_properties': sorted(units),
                  'kind_free_text': 'clang JSON AST -> C lowering (tools/cxx2c.py) + CBMC 6.11 contracts (goto-instrument --dfcc) / loop-free full-domain harnesses; SAT (minisat, kissat) and SMT (cvc5) back ends; native ASan/UBSan replay drivers against the real C++'}],
     'checks': checks,
